@@ -188,5 +188,5 @@ fn('mab.MAB.__init__', props='C04 C08 C17 C18', public=True,
             # C04: all randomness of the bandit flows from one generator created from the seed
             '[C04,seed] rngstate(self._rng) == rng_init_of(seed)', '[C04,fresh.rng] self.seed == seed',
             # C18: the bandit's arm list is an independent copy of the caller's list
-            '[C18,arms.copy] not same(self.arms, arms)', '[C08,C18,arms.equal] self.arms == arms',
+            '[C04,C08,C18,arms.copy] not same(self.arms, arms)', '[C08,C18,arms.equal] self.arms == arms',
             '[C07,unfitted] not self._is_initial_fit'])
